@@ -22,7 +22,7 @@ def run(ctx):
     return sworld.run_static(
         ctx, "C37", 1,
         variants=[{"impl": "basic", "cores": 1}, {"impl": "basic", "cores": 4}, {"impl": "compact", "cores": 2, "all_sources": True, "max": (40, 400)}],
-        sections=["validity", "build", "observe"],
+        sections=["validity", "problems", "build", "observe"],
         rule='every transition of MutableWorld scenario 3 executed via its shortest prefix on 4 world constructions + random '
              'walks; every source of StaticWorld scenario 1 built as basic (1, 4 goroutines) and compact worlds; after every '
              'step / build every observed feature passes an independent validity check; distinct = (scenario, impl, op path) '
